@@ -3,6 +3,8 @@ package main
 import (
 	"encoding/json"
 	"fmt"
+	"io"
+	"log"
 	"os"
 	"path/filepath"
 	"strconv"
@@ -27,6 +29,7 @@ const (
 
 	envKinds = "DL_KINDS" // "h,x3,h,x0,p": what handler dl-<i> does (see kind* below); empty = all healthy
 	envCap   = "DL_CAP"   // seconds added to the hard caps of caller and daemon (gate cases keep them waiting on purpose)
+	envStdio = "DL_STDIO" // "1": after Done() the daemon uses its standard descriptors like a real daemon does
 	envSteps = "DL_STEPS" // "1,1,3": the caller issues its Launch calls in steps of that many concurrent calls; empty = all at once
 
 	maxN          = 12
@@ -82,6 +85,7 @@ type Marker struct {
 	LauncherStart uint64 `json:"launcher_start"` // its starttime
 	Pgrp          int    `json:"pgrp"`
 	Sid           int    `json:"sid"`
+	Fds           string `json:"fds,omitempty"`  // what the daemon's fds 0/1/2 point to (its own readlink)
 	Kind          string `json:"kind,omitempty"` // "" / "h" healthy, else a handler that fails before Done()
 }
 
@@ -141,7 +145,7 @@ func daemonMain(idx int) {
 	go lifeguard(dir, sup, pid, t0)
 	self, lst := readStat(pid), readStat(lpid)
 	writeAtomic(dir, fmt.Sprintf("marker.%d", pid), Marker{Pid: pid, Idx: idx, Seq: seq, Start: self.Start,
-		Launcher: lpid, LauncherStart: lst.Start, Pgrp: self.Pgrp, Sid: self.Sid, Kind: kindOf(parseKinds(os.Getenv(envKinds)), idx)})
+		Launcher: lpid, LauncherStart: lst.Start, Pgrp: self.Pgrp, Sid: self.Sid, Fds: stdFds(pid), Kind: kindOf(parseKinds(os.Getenv(envKinds)), idx)})
 	switch kindOf(parseKinds(os.Getenv(envKinds)), idx) {
 	case kindExit3:
 		os.Exit(3)
@@ -196,7 +200,81 @@ func daemonMain(idx int) {
 			f.Close()
 		}
 	}
+	if os.Getenv(envStdio) == "1" {
+		useStdio(dir, pid, lpid)
+	}
 	select {} // the lifeguard ends the process
+}
+
+// StdioRec is written after the daemon used its standard descriptors: it survived that.
+type StdioRec struct {
+	Pid         int    `json:"pid"`
+	Orphaned    bool   `json:"orphaned_before_later_writes"` // the launcher was gone before rounds 1..3
+	StderrErr   string `json:"stderr_err,omitempty"`
+	StdoutErr   string `json:"stdout_err,omitempty"`
+	Stdin       string `json:"stdin"` // "eof", "err: ...", "read n bytes", "blocked"
+	WritesDone  int    `json:"write_rounds"`
+	PpidAtWrite int    `json:"ppid_at_last_write"`
+}
+
+// useStdio does, after Done(), what daemons do with their standard descriptors: lines to stderr
+// and stdout (directly and through the log package's default logger), several times with small
+// pauses - once at once, the rest after the launcher is gone (the daemon has a new parent) - and
+// a read from stdin, which must give EOF/an error or block harmlessly. A write to a pipe whose
+// reader (the launcher) is gone would raise SIGPIPE on fd 1/2 and kill the daemon.
+func useStdio(dir string, pid, lpid int) {
+	rec := StdioRec{Pid: pid}
+	round := func(k int) {
+		if _, err := fmt.Fprintf(os.Stderr, "daemonlaunch harness daemon %d: stderr line %d\n", pid, k); err != nil {
+			rec.StderrErr = err.Error()
+		}
+		if _, err := fmt.Fprintf(os.Stdout, "daemonlaunch harness daemon %d: stdout line %d\n", pid, k); err != nil {
+			rec.StdoutErr = err.Error()
+		}
+		log.Printf("daemonlaunch harness daemon %d: log line %d", pid, k)
+		rec.WritesDone++
+		rec.PpidAtWrite = os.Getppid()
+	}
+	round(0)
+	// not a verdict, only the order of events: later writes happen once the launcher is gone
+	rec.Orphaned = waitFor(20*time.Second, func() bool { return os.Getppid() != lpid })
+	for k := 1; k <= 3; k++ {
+		round(k)
+		time.Sleep(2 * time.Millisecond)
+	}
+	stdin := make(chan string, 1)
+	go func() {
+		var b [64]byte
+		n, err := os.Stdin.Read(b[:])
+		switch {
+		case err == io.EOF:
+			stdin <- "eof"
+		case err != nil:
+			stdin <- "err: " + err.Error()
+		default:
+			stdin <- fmt.Sprintf("read %d bytes", n)
+		}
+	}()
+	select {
+	case rec.Stdin = <-stdin:
+	case <-time.After(50 * time.Millisecond):
+		rec.Stdin = "blocked" // harmless: the goroutine stays parked
+	}
+	writeAtomic(dir, fmt.Sprintf("stdio.%d", pid), rec)
+}
+
+func stdFds(pid int) string {
+	var out []string
+	for fd := 0; fd <= 2; fd++ {
+		l, err := os.Readlink(fmt.Sprintf("/proc/%d/fd/%d", pid, fd))
+		if err != nil {
+			l = "?"
+		} else if i := strings.IndexByte(l, ':'); i > 0 && strings.HasSuffix(l, "]") {
+			l = l[:i] // pipe:[123] / socket:[456] -> pipe / socket
+		}
+		out = append(out, fmt.Sprintf("%d=%s", fd, l))
+	}
+	return strings.Join(out, " ")
 }
 
 // lifeguard runs next to the handler from its first moment (Done() may block for as long as it
